@@ -142,7 +142,7 @@ PROPS = {
         level_note='Trusts the reference model in harness/c15.cpp: merge = newest-first search for an entry with the same address whose (refreshed) time stamp is at most 2 s old. time() is replaced at link time (static link of the library objects).',
         technique='reference state-machine monitor in lock-step, virtual clock, AddressSanitizer/UBSan',
         stages=[dict(harness='c15', variant='asan', mode='model', quick=20000, thorough=1000000,
-                     need=['ops.record', 'ops.seek_undo_effective', 'ops.seek_redo_effective', 'model.merged', 'model.merged_into_non_newest', 'model.cap_dropped', 'state.at_cap', 'addresses.one_prefix_of_another']),
+                     need=['ops.record', 'ops.seek_undo_effective', 'ops.seek_redo_effective', 'model.merged', 'model.merged_into_non_newest', 'model.cap_dropped', 'state.at_cap', 'addresses.one_prefix_of_another', 'ops.seek_extreme_distance']),
                 dict(harness='c15', variant='asan', mode='e2e', quick=5000, thorough=200000,
                      need=['e2e.sets', 'e2e.undo_all_checked', 'e2e.redo_all_checked'])],
         rule='case = one operation history; distinct = hash of the rendered history; every history with >=1 operation is non-trivial.',
